@@ -208,9 +208,13 @@ func TestC18(t *testing.T) {
 		if rapid.Bool().Draw(rt, "prefix") {
 			sc.File.Ops = append(sc.File.Ops, recipe.FileOp{Op: "PackagePrefix", Args: []recipe.Text{"pkg"}})
 		}
-		if rapid.IntRange(0, 3).Draw(rt, "hint") == 0 {
+		for nh := rapid.IntRange(0, 2).Draw(rt, "nhints"); nh > 0; nh-- {
 			p := rapid.SampledFrom(sc.Paths).Draw(rt, "hintpath")
-			sc.File.Ops = append(sc.File.Ops, recipe.FileOp{Op: "ImportAlias", Args: []recipe.Text{recipe.Text(p), recipe.Text(rapid.SampledFrom([]string{"rand", "foo", "template", "fmt"}).Draw(rt, "hintname"))}})
+			name := rapid.SampledFrom([]string{"rand", "foo", "template", "fmt"}).Draw(rt, "hintname")
+			if rapid.Bool().Draw(rt, "aliasisrealname") && stdpkg.Name(p) != "" {
+				name = stdpkg.Name(p) // an alias that merely repeats the package's real name
+			}
+			sc.File.Ops = append(sc.File.Ops, recipe.FileOp{Op: rapid.SampledFrom([]string{"ImportAlias", "ImportAlias", "ImportName"}).Draw(rt, "hintop"), Args: []recipe.Text{recipe.Text(p), recipe.Text(name)}})
 		}
 		sc.Paths = rapid.Permutation(sc.Paths).Draw(rt, "order")
 		sc.File.Body = imps.GenBody(rt, sc.Paths, imps.Profile{})
